@@ -70,6 +70,7 @@ type Violation struct {
 	Repro    int      `json:"reproduced"`
 	Trace    []string `json:"trace,omitempty"`
 	Case     int      `json:"case,omitempty"`
+	Mem      []string `json:"mem_points,omitempty"`
 }
 
 // ScnStat is per-scenario coverage.
@@ -87,6 +88,9 @@ type ScnStat struct {
 	Outcomes    int      `json:"distinct_observations"`
 	Exhaustive  bool     `json:"exhaustive"`
 	ObsHashes   []string `json:"obs_hashes,omitempty"`
+	// plain-memory second pass: racing source sites that were made scheduling points
+	MemSites []string `json:"mem_sites,omitempty"`
+	MemPB    int      `json:"mem_pb_completed,omitempty"`
 }
 
 // Report is what a harness binary writes for vcheck.
@@ -118,6 +122,9 @@ type task struct {
 	Trace  bool  `json:"trace"`
 	Epoch  int   `json:"epoch"`
 	Quit   bool  `json:"quit"`
+	// second pass: plain-memory access sites that are scheduling points; only
+	// choices at those points are explored (each costs one unit of PB)
+	Mem []string `json:"mem,omitempty"`
 	// enumerator
 	Lo, Hi int
 }
@@ -137,6 +144,7 @@ type reply struct {
 	TimedOut   bool              `json:"timedout"`
 	Known      map[string]string `json:"known,omitempty"`
 	Infra      []string          `json:"infra,omitempty"`
+	MemSites   []string          `json:"memsites,omitempty"`
 }
 
 var (
@@ -153,6 +161,10 @@ var (
 	flagObsHashes = flag.Bool("obshashes", false, "list the hashes of all distinct observations per scenario in the report")
 	flagShmBits   = flag.Uint("shmbits", 24, "log2 of the number of slots in the shared visited set")
 )
+
+// memPB is the preemption bound of the plain-memory pass (preemptions at
+// access points only).
+const memPB = 2
 
 func cost(ch []vs.Choice, delay bool) (pre, dev int) {
 	for _, c := range ch {
@@ -188,6 +200,8 @@ type explorer struct {
 	deadline time.Time
 	stop     bool
 	maxViol  int
+	mem      map[string]bool
+	memL     []string
 }
 
 func (e *explorer) runOne(prefix []int, trace bool, cache bool) (*vs.Result, Exec) {
@@ -199,6 +213,7 @@ func (e *explorer) runOne(prefix []int, trace bool, cache bool) (*vs.Result, Exe
 		s.MaxTime = e.scn.MaxTime
 	}
 	s.Trace = trace
+	s.MemPoints = e.mem
 	judge := e.scn.Setup(s)
 	if cache {
 		counted := false
@@ -245,7 +260,7 @@ func (e *explorer) visit(key uint64, pre, dev int) bool {
 
 // node runs the execution for prefix and returns the child prefixes within bounds.
 func (e *explorer) node(prefix []int, trace bool) [][]int {
-	r, x := e.runOne(prefix, trace, !trace && !e.scn.Single)
+	r, x := e.runOne(prefix, trace, !trace && (!e.scn.Single || e.mem != nil))
 	e.rep.Execs++
 	e.rep.Steps += int64(r.Steps)
 	if len(r.Choices) > e.rep.MaxChoices {
@@ -254,6 +269,17 @@ func (e *explorer) node(prefix []int, trace bool) [][]int {
 	if r.Diverged != "" {
 		e.rep.Diverged++
 		return nil
+	}
+	for _, site := range vs.MemSites(r.MemRaces) {
+		have := false
+		for _, x := range e.rep.MemSites {
+			if x == site {
+				have = true
+			}
+		}
+		if !have {
+			e.rep.MemSites = append(e.rep.MemSites, site)
+		}
 	}
 	if r.Pruned {
 		e.rep.Pruned++
@@ -272,7 +298,7 @@ func (e *explorer) node(prefix []int, trace bool) [][]int {
 			x.Violations = splitKnown(x.Violations, workerKnown, e.rep.Known)
 		}
 		if len(x.Violations) > 0 {
-			v := Violation{Scenario: e.scn.Name, PB: e.pb, DB: e.db, Prefix: picks(r.Choices), Messages: x.Violations, Obs: clip(x.Obs, 2000)}
+			v := Violation{Scenario: e.scn.Name, PB: e.pb, DB: e.db, Prefix: picks(r.Choices), Messages: x.Violations, Obs: clip(x.Obs, 2000), Mem: e.memL}
 			if trace {
 				v.Trace = r.TraceLog
 			}
@@ -286,6 +312,9 @@ func (e *explorer) node(prefix []int, trace bool) [][]int {
 	pre, dev := cost(r.Choices[:min(len(prefix), len(r.Choices))], e.scn.Delay)
 	for i := len(prefix); i < len(r.Choices); i++ {
 		c := r.Choices[i]
+		if e.mem != nil && !(c.Kind == vs.ChSched && c.Mem) {
+			continue
+		}
 		for alt := 1; alt < c.N; alt++ {
 			p, d := pre, dev
 			if c.Kind == vs.ChSched && (c.Preempt || e.scn.Delay) {
@@ -391,6 +420,13 @@ func workerLoop(h *Harness, en *Enum) {
 			ex.scn = &scns[t.Scn]
 			ex.pb, ex.db = t.PB, scns[t.Scn].DB
 			ex.rep = rep
+			ex.mem, ex.memL = nil, t.Mem
+			if len(t.Mem) > 0 {
+				ex.mem = map[string]bool{}
+				for _, m := range t.Mem {
+					ex.mem[m] = true
+				}
+			}
 			ex.stop = false
 			ex.maxViol = *flagMaxViol
 			ex.deadline = time.Time{}
@@ -622,6 +658,7 @@ func Main(h *Harness) {
 	// Single-schedule scenarios are independent one-execution jobs: run them in
 	// parallel over the worker pool first.
 	singleDone := map[int]bool{}
+	singleMem := map[int][]string{}
 	{
 		var idx []int
 		for si := range scns {
@@ -692,6 +729,9 @@ func Main(h *Harness) {
 						rep.Transitions += st.Transitions
 						rep.States += st.States
 						singleDone[si] = true
+						if st.Exhaustive && len(r.MemSites) > 0 {
+							singleMem[si] = r.MemSites
+						}
 						mu.Unlock()
 					}
 				}(w)
@@ -734,7 +774,7 @@ scnLoop:
 		if *flagScn != "" && !strings.Contains(sc.Name, *flagScn) {
 			continue
 		}
-		if singleDone[si] {
+		if singleDone[si] && len(singleMem[si]) == 0 {
 			continue
 		}
 		if len(rep.Violations) >= *flagMaxViol {
@@ -742,7 +782,52 @@ scnLoop:
 		}
 		st := ScnStat{Name: sc.Name, DB: sc.DB, PBCompleted: -1, Exhaustive: true}
 		scObs := map[string]bool{}
-		for pb := 0; pb <= sc.PB; pb++ {
+		// passes: the ordinary preemption bounds first; then, if unordered conflicting
+		// plain-memory accesses were seen, the same scenario again with a scheduling
+		// point in front of every access at the racing sites
+		type pass struct {
+			pb  int
+			mem []string
+		}
+		var passes []pass
+		scMem := map[string]bool{}
+		memRounds := 0
+		if singleDone[si] {
+			st.Name += " [mem]"
+			st.PBCompleted = 0
+			for _, m := range singleMem[si] {
+				scMem[m] = true
+			}
+		} else {
+			for pb := 0; pb <= sc.PB; pb++ {
+				passes = append(passes, pass{pb: pb})
+			}
+		}
+		memSorted := func() []string {
+			var l []string
+			for m := range scMem {
+				l = append(l, m)
+			}
+			sort.Strings(l)
+			return l
+		}
+		lastMemSet := ""
+		for pi := 0; ; pi++ {
+			if pi == len(passes) {
+				// schedule a plain-memory pass if there are (new) racing sites
+				l := memSorted()
+				key := strings.Join(l, ",")
+				if len(l) == 0 || key == lastMemSet || memRounds >= 3 || !st.Exhaustive {
+					break
+				}
+				lastMemSet = key
+				memRounds++
+				st.MemSites = l
+				for pb := 0; pb <= memPB; pb++ {
+					passes = append(passes, pass{pb: pb, mem: l})
+				}
+			}
+			pb, mem := passes[pi].pb, passes[pi].mem
 			epoch++
 			if masterShm != nil {
 				masterShm.clear()
@@ -777,6 +862,9 @@ scnLoop:
 				if r.TimedOut {
 					agg.TimedOut = true
 				}
+				for _, m := range r.MemSites {
+					scMem[m] = true
+				}
 			}
 			w0, err := getWorker(0)
 			if err != nil {
@@ -787,7 +875,7 @@ scnLoop:
 			for len(frontier) > 0 && len(frontier) < want && agg.Execs < 400 {
 				p := frontier[0]
 				frontier = frontier[1:]
-				r, err := w0.do(task{Scn: si, PB: pb, Prefix: p, Single: true, Epoch: epoch})
+				r, err := w0.do(task{Scn: si, PB: pb, Prefix: p, Single: true, Epoch: epoch, Mem: mem})
 				if err != nil {
 					crashed = true
 					agg.Viol = append(agg.Viol, Violation{Scenario: sc.Name, PB: pb, DB: sc.DB, Prefix: p, Messages: []string{"CRASH worker process died: " + err.Error()}})
@@ -796,7 +884,7 @@ scnLoop:
 					break
 				}
 				merge(r)
-				if sc.Single {
+				if sc.Single && mem == nil {
 					break
 				}
 				frontier = append(frontier, r.Children...)
@@ -805,7 +893,7 @@ scnLoop:
 				}
 			}
 			// Phase 2: hand subtrees to the worker pool.
-			if !crashed && len(agg.Viol) == 0 && len(frontier) > 0 && !sc.Single {
+			if !crashed && len(agg.Viol) == 0 && len(frontier) > 0 && (!sc.Single || mem != nil) {
 				var mu sync.Mutex
 				next := 0
 				var wg sync.WaitGroup
@@ -831,7 +919,7 @@ scnLoop:
 							p := frontier[next]
 							next++
 							mu.Unlock()
-							r, err := w.do(task{Scn: si, PB: pb, Prefix: p, Epoch: epoch})
+							r, err := w.do(task{Scn: si, PB: pb, Prefix: p, Epoch: epoch, Mem: mem})
 							mu.Lock()
 							if err != nil {
 								agg.Viol = append(agg.Viol, Violation{Scenario: sc.Name, PB: pb, DB: sc.DB, Prefix: p, Messages: []string{"CRASH worker process died: " + err.Error()}})
@@ -858,7 +946,7 @@ scnLoop:
 				}
 			}
 			if os.Getenv("VX_DEBUG") != "" {
-				fmt.Fprintf(os.Stderr, "[vx] %s pb=%d execs=%d steps=%d states=%d pruned=%d obs=%d viol=%d frontier=%d t=%.1fs\n", sc.Name, pb, agg.Execs, agg.Steps, agg.States, agg.Pruned, len(agg.Obs), len(agg.Viol), len(frontier), time.Since(t0).Seconds())
+				fmt.Fprintf(os.Stderr, "[vx] %s mem=%d pb=%d execs=%d steps=%d states=%d pruned=%d obs=%d viol=%d frontier=%d t=%.1fs\n", sc.Name, len(mem), pb, agg.Execs, agg.Steps, agg.States, agg.Pruned, len(agg.Obs), len(agg.Viol), len(frontier), time.Since(t0).Seconds())
 			}
 			st.Executions += agg.Execs
 			st.Transitions += agg.Steps
@@ -902,9 +990,13 @@ scnLoop:
 			if agg.TimedOut {
 				break
 			}
-			st.PBCompleted = pb
-			if sc.Single {
-				break
+			if mem == nil {
+				st.PBCompleted = pb
+				if sc.Single {
+					passes = passes[:pi+1]
+				}
+			} else {
+				st.MemPB = pb
 			}
 		}
 		st.Outcomes = len(scObs)
@@ -948,7 +1040,7 @@ func confirm(getWorker func(int) (*worker, error), si, pb, epoch int, v *Violati
 		return 0
 	}
 	for i := 0; i < 5; i++ {
-		r, err := w.do(task{Scn: si, PB: pb, Prefix: v.Prefix, Single: true, Trace: true, Epoch: epoch + i})
+		r, err := w.do(task{Scn: si, PB: pb, Prefix: v.Prefix, Single: true, Trace: true, Epoch: epoch + i, Mem: v.Mem})
 		if err != nil {
 			return n
 		}
@@ -1037,6 +1129,12 @@ func replay(h *Harness) int {
 			continue
 		}
 		e := &explorer{scn: &scns[i], pb: v.PB, db: v.DB, seen: map[uint64]pareto{}, rep: &reply{Obs: map[string]string{}}, maxViol: 1}
+		if len(v.Mem) > 0 {
+			e.mem = map[string]bool{}
+			for _, m := range v.Mem {
+				e.mem[m] = true
+			}
+		}
 		r, x := e.runOne(v.Prefix, true, false)
 		for _, l := range r.TraceLog {
 			fmt.Println(l)
